@@ -25,6 +25,7 @@ mod c17;
 mod c19;
 mod c01;
 mod c04;
+mod c05;
 
 use std::io::{BufWriter, Write};
 
@@ -63,6 +64,7 @@ fn main() {
                 "C19" => c19::gen(tier, seed, &mut out),
                 "C01" => c01::gen(tier, seed, &mut out),
                 "C04" => c04::gen(tier, seed, &mut out),
+                "C05" => c05::gen(tier, seed, &mut out),
                 _ => {
                     eprintln!("unknown property {}", prop);
                     std::process::exit(2);
@@ -190,6 +192,13 @@ fn replay_one(toks: &[&str]) -> String {
             std::fs::create_dir_all(&scratch).unwrap();
             let r = c04::observe(&toks[1..], &scratch);
             common::rm_rf(&scratch);
+        "C05" => {
+            let scratch = common::scratch_root().join("c05r");
+            std::fs::create_dir_all(&scratch).unwrap();
+            let r = c05::observe(&toks[1..], &scratch);
+            if std::env::var("VERIF_KEEP").is_err() {
+                common::rm_rf(&scratch);
+            }
             r
         }
         other => format!("unknown-model {}", other),
